@@ -24,6 +24,7 @@ import (
 	"math/rand"
 	"os"
 	"path/filepath"
+	"runtime"
 	"strings"
 	"syscall"
 	"time"
@@ -102,7 +103,7 @@ func durableWrite(path string, data []byte) {
 	if _, err := f.Write(data); err != nil {
 		die("setup: %v", err)
 	}
-	if err := f.Sync(); err != nil {
+	if err := syscall.Fdatasync(int(f.Fd())); err != nil {
 		die("setup: %v", err)
 	}
 	f.Close()
@@ -114,7 +115,7 @@ func syncDir(d string) {
 	if err != nil {
 		die("setup: %v", err)
 	}
-	if err := df.Sync(); err != nil {
+	if err := syscall.Fdatasync(int(df.Fd())); err != nil {
 		die("setup: %v", err)
 	}
 	df.Close()
@@ -513,7 +514,7 @@ func overlordCheckpoints(n int) {
 		if err != nil {
 			die("open state: %v", err)
 		}
-		f.Sync()
+		syscall.Fdatasync(int(f.Fd()))
 		f.Close()
 		syncDir(dir)
 	}
@@ -563,6 +564,12 @@ func overlordCheckpoints(n int) {
 		emit(rec)
 		prev = got
 	}
+}
+
+func init() {
+	// every system call of the cases is issued by the main goroutine; pin it to the main thread so that strace's
+	// per-tracee fault-injection counters (-e inject=...:when=K) are deterministic
+	runtime.LockOSThread()
 }
 
 func main() {
